@@ -7,7 +7,7 @@ import ast
 from ..astutil import calls_in, norm_stmt, path_of, unparse, walk_scope, walk_stmts
 from ..facts import Fact, atoms, enumerate_paths
 from ..report import Ctx
-from .common import always_before, increment_of, need, node_of, stmts_matching
+from .common import always_before, expand, increment_of, need, node_of, single_defs, stmts_matching
 
 BF = "happysimulator/sketching/bloom_filter.py"
 CMS = "happysimulator/sketching/count_min_sketch.py"
@@ -539,7 +539,79 @@ def rule_merged_total_is_sum(ctx: Ctx) -> None:
     ctx.ob("C20-5", "G2", mg, finals[0].ast if finals else None, ok, "TopK.merge: the merged stream length is `self._total_count + other._total_count`, taken before the replay and assigned after it")
 
 
+COLL = "happysimulator/components/sketching/"
+
+
+def _self_writes(fn) -> set[str]:
+    """self attributes a method writes: assignment, augmented assignment, item store, or a mutating call on the attribute"""
+    out = set()
+    for st in walk_stmts(fn.node.body):
+        tg = st.targets if isinstance(st, ast.Assign) else [st.target] if isinstance(st, (ast.AnnAssign, ast.AugAssign)) else []
+        for t in tg:
+            for e in (t.elts if isinstance(t, ast.Tuple) else [t]):
+                while isinstance(e, ast.Subscript):
+                    e = e.value
+                p_ = path_of(e)
+                if p_ and p_.startswith("self.") and p_.count(".") == 1:
+                    out.add(p_.split(".")[1])
+    for k in calls_in(fn.node):
+        if isinstance(k.func, ast.Attribute) and k.func.attr in ("append", "extend", "insert", "pop", "clear", "sort", "update", "add", "discard", "remove", "setdefault", "popitem"):
+            e = k.func.value
+            while isinstance(e, ast.Subscript):
+                e = e.value
+            p_ = path_of(e)
+            if p_ and p_.startswith("self.") and p_.count(".") == 1:
+                out.add(p_.split(".")[1])
+    return out
+
+
+def rule_memo_invalidation_and_collectors(ctx: Ctx) -> None:
+    """C20-9: (a) a sketch that memoises an answer (`self._cached = <computed>; return self._cached`) drops the memo in *every* method that
+    changes the state the answer is computed from — add, merge, clear alike; otherwise a query after a merge returns the pre-merge answer
+    although the registers are those of the union.  (b) the collector entities hand what their extractors return to the sketch unchanged:
+    the only filter is `value is not None`, and a weight of 0 stays 0 (`x or 1` would count an empty occurrence as one)."""
+    prog = ctx.prog
+    n_cls = n_memo = 0
+    for rel in (BF, CMS, HLL, TOPK, TD, RS, MK):
+        for c in prog.module(rel).classes.values() if hasattr(prog.module(rel), "classes") else []:
+            n_cls += 1
+            methods = [m for m in c.methods.values() if m.name not in ("__init__", "__post_init__")]
+            for q in methods:
+                returned = {path_of(s_.value).split(".")[1] for s_ in walk_stmts(q.node.body) if isinstance(s_, ast.Return) and (path_of(s_.value) or "").startswith("self.") and path_of(s_.value).count(".") == 1}
+                memo = returned & {a for a in _self_writes(q)}
+                for a in sorted(memo):
+                    n_memo += 1
+                    deps = {x.attr for x in walk_scope(q.node, include_root=False) if isinstance(x, ast.Attribute) and path_of(x.value) == "self" and isinstance(x.ctx, ast.Load)} - {a}
+                    for m in methods:
+                        if m is q:
+                            continue
+                        w = _self_writes(m)
+                        touched = sorted(w & deps)
+                        if touched:
+                            ctx.ob("C20-9", "G2", m, None, a in w, f"{c.name}.{m.name} changes {touched}, from which {q.name}() computes the memoised `self.{a}`: it resets the memo as well")
+    need(n_cls >= 7, f"C20-9: expected the seven sketch classes, scanned {n_cls}")
+    ctx.ob("C20-9", "G2", None, "memoised answers", True, f"{n_cls} sketch classes scanned, {n_memo} memoised answer(s): each is reset by every method that changes its inputs", relpath="happysimulator/sketching/")
+    n = 0
+    for rel, cname, sk in ((COLL + "sketch_collector.py", "SketchCollector", "self._sketch"), (COLL + "topk_collector.py", "TopKCollector", "self._topk"), (COLL + "quantile_estimator.py", "QuantileEstimator", "self._tdigest")):
+        fn = prog.cls(rel, cname).methods["handle_event"]
+        sd = single_defs(fn)
+        ff = ctx.flow(fn)
+        adds = [k for k in calls_in(fn.node) if path_of(k.func) == f"{sk}.add"]
+        need(adds, f"C20-9: {cname}.handle_event never adds to {sk}")
+        for k in adds:
+            n += 1
+            vals = [expand(a, sd) for a in k.args] + [expand(kw.value, sd) for kw in k.keywords]
+            ok = all(isinstance(v, ast.Call) and (path_of(v.func) or "").startswith("self._") and path_of(v.func).endswith("_extractor") and [path_of(a) for a in v.args] == ["event"] for v in vals)
+            nd = node_of(ff.cfg, k)
+            guards = {f for f in ff.facts_at(nd).keys() if f[0] not in ("isnot",) or f[2] != "None"}
+            guards = {g for g in guards if not (g[0] == "eq" and g[1].startswith("self._") )}
+            ctx.ob("C20-9", "G7", fn, k, ok and not {g for g in guards if g[0] in ("truthy", "falsy", "lt", "le") },
+                   f"{cname}: what the extractors return goes to `{sk}.add` unchanged, filtered only by `is not None` (no truthiness test, no `or default`: a value or weight of 0 is data)")
+    ctx.floor("C20-9", 5)
+
+
 def run(ctx: Ctx) -> None:
+    ctx.guarded(rule_memo_invalidation_and_collectors)
     ctx.guarded(rule_merged_total_is_sum)
     ctx.guarded(rule_tdigest_sorted_invariant)
     ctx.guarded(rule_index_sketches)
@@ -550,6 +622,10 @@ def run(ctx: Ctx) -> None:
 
 
 MUTANTS = [
+    ("topk-collector-zero-weight-becomes-one", COLL + "topk_collector.py", "                count = self._count_extractor(event)\n", "                count = self._count_extractor(event) or 1\n", "C20-9"),
+    ("sketch-collector-skips-falsy-values", COLL + "sketch_collector.py", "        value = self._value_extractor(event)\n\n        if value is not None:\n            if self._weight_extractor", "        value = self._value_extractor(event)\n\n        if value:\n            if self._weight_extractor", "C20-9"),
+    ("hll-cardinality-memo-survives-merge", HLL, ["        self._total_count = 0\n\n    @property\n    def precision", "        m = self._num_registers\n        alpha = self._alpha()\n", "        return int(raw_estimate)\n"],
+     ["        self._total_count = 0\n        self._cached = None\n\n    @property\n    def precision", "        if self._cached is not None:\n            return self._cached\n        m = self._num_registers\n        alpha = self._alpha()\n", "        self._cached = int(raw_estimate)\n        return self._cached\n"], "C20-9"),
     ("topk-merge-total-from-replay", TOPK, "        self._total_count = combined_total\n", "        self._total_count += other._total_count - sum(c.count for c in other._counters.values())\n", "C20-5"),
     ("tdigest-weighted-add-appends-unsorted", TD, "    def _flush(self) -> None:", "    def add_weighted(self, value: float, count: int) -> None:\n        self._flush()\n        self._centroids.append(_Centroid(mean=value, count=count))\n        self._total_count += count\n\n    def _flush(self) -> None:", "C20-6"),
     ("tdigest-compress-does-not-sort", TD, "        # Sort centroids by mean\n        self._centroids.sort(key=lambda c: c.mean)\n", "", "C20-6"),
